@@ -10,6 +10,7 @@ import gzip
 import io
 import json
 import os
+import shutil
 import zlib
 
 from harness.common import Atom, classify_exception
@@ -810,6 +811,46 @@ def describe_accessor(acc):
 
 
 def dispatch_part(R, n):
+    """get_accessor_for_url / convert_file_url_to_pathname.  The working directory is moved five levels
+    below R.tmp for the duration: a defective URL conversion that turns an absolute pathname into a relative
+    one then still lands inside R.tmp."""
+    cwd0 = os.getcwd()
+    deep = os.path.join(R.tmp, "cwd", "n1", "n2", "n3", "n4")
+    os.makedirs(deep, exist_ok=True)
+    os.chdir(deep)
+    try:
+        _dispatch_part(R, n)
+        _relative_precomputed(R)
+    finally:
+        os.chdir(cwd0)
+
+
+def _relative_precomputed(R):
+    """'precomputed://' + a plain RELATIVE pathname (the working directory is a sandbox): the prefix is
+    removed as a prefix, whatever characters the pathname starts with."""
+    from neuroglancer_scripts import accessor
+    names = ["data/ds", "output/ds", "tmp/ds", "processed", "raw/ds", "e/ds", "mesh/ds", "cache/ds", "u",
+             "d", "pre", "computed/ds", "s/ds", "n", "./data/ds", "t1+t2/ds"]
+    rep = R.model.batch([("pathname", b("precomputed://" + nm)) for nm in names])
+    for nm, mp in zip(names, rep):
+        url = "precomputed://" + nm
+        pn = run_impl(lambda: accessor.convert_file_url_to_pathname(url))
+        res = run_impl(lambda: describe_accessor(accessor.get_accessor_for_url(url)))
+        case = {"dispatch": url, "cwd": "<sandbox>"}
+        R.case(case, nontrivial=True)
+        R.count(f"dispatch:precomputed-relative:{pn[0]}")
+        mpn = ["ok", mp[1].decode("utf-8", "surrogateescape")] if str(mp[0]) == "ok" else [str(x) for x in mp]
+        if mpn != pn:
+            R.disagree("convert_file_url_to_pathname vs model", case, pn, mpn)
+        got_base = None
+        if res[0] == "ok":
+            got_base = res[1][1][0] if res[1][0] == "file" else res[1][1]
+        if pn != ["ok", nm] or res[0] != "ok" or os.path.normpath(got_base.decode()) != os.path.normpath(nm):
+            R.violation("'precomputed://' + plain pathname does not address the same directory as the plain "
+                        "pathname", case, {"pathname": pn, "accessor": _short(res)})
+
+
+def _dispatch_part(R, n):
     import urllib.parse
     from neuroglancer_scripts import accessor
     rng = R.rng
@@ -818,7 +859,7 @@ def dispatch_part(R, n):
     # the last cases: directory names with '+' / ' ' (literal characters of a URL path: '+' is NOT a space
     # there), addressed by file:// URLs, raw and percent-encoded - the same directory as the plain pathname
     plus_names = ["t1+t2", "a+b c", "x y+z", "p+"]
-    nplus = 12 if n <= 400 else 96
+    nplus = 16 if n <= 400 else 96
     for i in range(n + nplus):
         plus = i >= n
         sb, base = make_sandbox(R, f"d{i}", True)
@@ -837,8 +878,11 @@ def dispatch_part(R, n):
         r = rng.random() if not plus else 2.0
         target = base if plus or rng.random() < 0.85 else os.path.join(sb, "w", "missing", "ds")
         if plus:
+            # ... and 'precomputed://' + the plain absolute pathname (the prefix is a prefix, not a set of
+            # characters to strip: the pathname starts with '/')
             url = ["file://" + target, "file://" + urllib.parse.quote(target),
-                   "precomputed://file://" + urllib.parse.quote(target)][(i - n) // len(plus_names) % 3]
+                   "precomputed://file://" + urllib.parse.quote(target),
+                   "precomputed://" + target][(i - n) // len(plus_names) % 4]
         elif r < 0.3:
             url = target
         elif r < 0.4:
@@ -945,8 +989,8 @@ def dispatch_part(R, n):
             if j["res"][0] == "ok":
                 got_base = j["res"][1][1][0] if j["res"][1][0] == "file" else j["res"][1][1]
             if j["pn"] != ["ok", j["target"]] or (j["res"][0] == "ok" and got_base != b(j["target"])):
-                R.violation("a file:// URL and the plain pathname of the same directory address different "
-                            "directories", case, {"pathname": j["pn"], "accessor_base": got_base,
+                R.violation("a file:// URL (or 'precomputed://' + pathname) and the plain pathname of the same "
+                            "directory address different directories", case, {"pathname": j["pn"], "accessor_base": got_base,
                                                   "directory": j["target"].replace(j["sb"], "<sb>")})
         # oracle: sharded accessor iff forced or the info declares sharding for all scales
         if j["res"][0] == "ok" and j["data"] is not None and not j["as_gz"] and j["at_base"]:
@@ -956,6 +1000,44 @@ def dispatch_part(R, n):
             if is_sh != (declared or forced):
                 R.violation("local URL dispatched to the sharded accessor although the info does not declare "
                             "sharding for all scales (or the converse)", case, {"impl": j["res"], "declared": declared})
+
+
+def large_part(R, quick):
+    """One chunk and one file of 16 MiB + 12381 bytes (not a multiple of any block size) under the flat/deep x
+    gzip/plain combinations: what is fetched (through another accessor object) is what was stored.  Oracle
+    only: buffers of this size are not sent to the model."""
+    from neuroglancer_scripts.file_accessor import FileAccessor
+    n = (1 << 24) + 12381
+    unit = bytes((7 * k + k // 251) % 256 for k in range(4093))
+    buf = (unit * (n // len(unit) + 1))[:n - 16] + b"<<end-of-buffer>"
+    assert len(buf) == n
+    R.notes.append("buffers above 16 MiB (one chunk, one file per layout x gzip combination): oracle only "
+                   "(fetch = store, size on disk), not sent to the model")
+    for ci, (flat, gz, lvl) in enumerate([(False, True, 1), (True, False, 9), (False, False, 9), (True, True, 6)]):
+        sb, base = make_sandbox(R, f"big{ci}", True)
+        case = {"accessor": "file", "cfg": {"flat": flat, "gzip": gz, "level": lvl}, "buffer_bytes": n}
+        R.case(case, nontrivial=True)
+        w = FileAccessor(base, flat=flat, gzip=gz, compresslevel=lvl)
+        co = (0, 300, 0, 300, 0, 187)
+        outs = {"store_chunk": run_impl(lambda: w.store_chunk(buf, "1mm", co)),
+                "store_file": run_impl(lambda: w.store_file("mesh/big", buf))}
+        rd = FileAccessor(base, flat=not flat, gzip=not gz)
+        for what, got in (("chunk", run_impl(lambda: rd.fetch_chunk("1mm", co))),
+                          ("file", run_impl(lambda: rd.fetch_file("mesh/big")))):
+            R.count(f"fa:large:{what}:{got[0]}")
+            if outs["store_" + what] != ["ok", None] or got[0] != "ok" or bytes(got[1]) != buf:
+                R.violation(f"a {what} of more than 16 MiB is not fetched back as stored", case,
+                            {"store": _short(outs["store_" + what]),
+                             "fetched_bytes": len(got[1]) if got[0] == "ok" else got,
+                             "stored_bytes": n})
+        if not gz:
+            rel = "/".join(py_chunk_rel(flat, ("1mm",), co))
+            for path in (os.path.join(base, rel), os.path.join(base, "mesh", "big")):
+                size = os.path.getsize(path) if os.path.isfile(path) else None
+                if size != n:
+                    R.violation("size on disk of an uncompressed stored buffer above 16 MiB", case,
+                                {"path": path.replace(sb, "<sb>"), "size": size, "stored_bytes": n})
+        shutil.rmtree(sb, ignore_errors=True)
 
 
 def witnesses(R):
@@ -1066,6 +1148,7 @@ def run(R):
     file_accessor_part(R, 560 if quick else 10000)
     sharded_part(R, 200 if quick else 3000)
     dispatch_part(R, 240 if quick else 4000)
+    large_part(R, quick)
 
 
 def replay(R, payload):
